@@ -326,7 +326,9 @@ def gen_integral_ir(repo, res):
         out = it.call_f(f, [fd, 4, [elP2, elP1, elDG], names, {"part": part, "sum_factorization": False, "table_rtol": 1e-6, "table_atol": 1e-9}, False])
         return out, handed, args_el
 
-    for label, nargs, part in (("bilinear form", 2, "full"), ("bilinear form, diagonal", 2, "diagonal"), ("linear form", 1, "full"), ("functional", 0, "full")):
+    # part="diagonal" applies to bilinear forms only: a linear form or a functional compiled with it must come out as without it
+    for label, nargs, part in (("bilinear form", 2, "full"), ("bilinear form, diagonal", 2, "diagonal"), ("linear form", 1, "full"), ("functional", 0, "full"),
+                               ("linear form with part=diagonal", 1, "diagonal"), ("functional with part=diagonal", 0, "diagonal")):
         try:
             out, handed, args_el = run(nargs, part)
         except Raised as e:
